@@ -9,21 +9,49 @@ namespace C13
 /-- one operation moves both EID cells exactly as the abstract specification says -/
 theorem step (c : Ctx) (op : Op) (h : Spec.opOk op = true) :
     ((stepOp c op).1.reqEid, (stepOp c op).1.respEid) = Spec.eidsStep (c.reqEid, c.respEid) op := by
-  sorry
+  cases op with
+  | process p buf =>
+    rw [Proc.stepOp_process, Proc.process_eids]
+    rfl
+  | setUuid u =>
+    show ((if u.length = 16 then ({ c with uuid := u }, Obs.unit) else (c, Obs.panicked ⟨.copyLen, .smbus⟩)).1.reqEid,
+          (if u.length = 16 then ({ c with uuid := u }, Obs.unit) else (c, Obs.panicked ⟨.copyLen, .smbus⟩)).1.respEid) =
+      (c.reqEid, c.respEid)
+    split <;> rfl
+  | _ => rfl
 
 /-- after any history on a fresh context, both halves hold what the specification says -/
 theorem refine (a : B) (ts : Bytes) (vs : List VendorId) (ops : List Op)
     (h : ∀ op ∈ ops, Spec.opOk op = true) :
     let c := (runOps (Ctx.new a ts vs) ops).1
     (c.reqEid, c.respEid) = Spec.eids ops := by
-  sorry
+  have gen : ∀ (ops : List Op) (c : Ctx), (∀ op ∈ ops, Spec.opOk op = true) →
+      ((runOps c ops).1.reqEid, (runOps c ops).1.respEid) = ops.foldl Spec.eidsStep (c.reqEid, c.respEid) := by
+    intro ops
+    induction ops with
+    | nil => intro c _; rfl
+    | cons op ops ih =>
+      intro c hok
+      rw [Proc.runOps_cons, List.foldl_cons, ← step c op (hok op (by simp))]
+      exact ih _ (fun o ho => hok o (by simp [ho]))
+  exact gen ops (Ctx.new a ts vs) h
 
 /-- nothing but an accepted Set/Force request or an accessor write changes either cell -/
 theorem frame (c : Ctx) (op : Op) (hok : Spec.opOk op = true)
     (hp : ∀ p buf, op = .process p buf → Spec.assigns p = none)
     (h1 : ∀ e, op ≠ .setEidReq e) (h2 : ∀ e, op ≠ .setEidResp e) :
     (stepOp c op).1.reqEid = c.reqEid ∧ (stepOp c op).1.respEid = c.respEid := by
-  sorry
+  have hs := step c op hok
+  have : Spec.eidsStep (c.reqEid, c.respEid) op = (c.reqEid, c.respEid) := by
+    cases op with
+    | process p buf =>
+      show (match Spec.assigns p with | some e => (e, e) | none => (c.reqEid, c.respEid)) = _
+      rw [hp p buf rfl]
+    | setEidReq e => exact absurd rfl (h1 e)
+    | setEidResp e => exact absurd rfl (h2 e)
+    | _ => rfl
+  rw [this] at hs
+  exact ⟨congrArg Prod.fst hs, congrArg Prod.snd hs⟩
 
 /-- an accepted assignment is answered Success, status accepted, and the new EID -/
 theorem assign_answer (c : Ctx) (p buf : Bytes) (e : B) (hb : 64 ≤ buf.length)
@@ -31,21 +59,36 @@ theorem assign_answer (c : Ctx) (p buf : Bytes) (e : B) (hb : 64 ≤ buf.length)
     ∃ c' d buf', process c p buf = (c', .ok (d, some 16), buf') ∧
       c'.reqEid = e ∧ c'.respEid = e ∧
       Spec.sub buf' 9 15 = [0x00#8, 0x01#8, 0x00#8, 0x00#8, e, 0x00#8] := by
-  sorry
+  obtain ⟨hacc, hcmd, hop, rfl⟩ := Proc.assigns_some p e ha
+  have hun : Spec.reqUnimpl (byteAt p 10) = false := by rw [hcmd]; decide
+  have hd := Proc.dispatch_setEid_assign c (byteAt p 10) (byteAt p 6) (fun i => byteAt p (11 + i)) buf
+    (by rw [hcmd]; rfl) hop (by omega)
+  refine ⟨_, _, _, Proc.process_of_dispatch c p buf hacc hun _ _ _ hd, rfl, rfl, ?_⟩
+  exact Proc.sub_respPkt c.address (byteAt p 6) 0x01#8 [0x00#8, 0x00#8, byteAt p 12, 0x00#8] (buf.drop 16)
 
 /-- Set-Discovered-Flag is answered with the invalid-data completion code and changes nothing -/
 theorem discovered_flag (c : Ctx) (p buf : Bytes) (hb : 64 ≤ buf.length)
     (ha : Spec.isAcceptedRequest p = true) (hcmd : Spec.cmdOf p = 0x01#8) (hop : byteAt p 11 = 0x03#8) :
     ∃ d buf', process c p buf = (c, .ok (d, some 16), buf') ∧
       Spec.sub buf' 9 15 = [0x00#8, 0x01#8, 0x02#8, 0x00#8, c.respEid, 0x00#8] := by
-  sorry
+  have hcmd' : byteAt p 10 = 0x01#8 := hcmd
+  have hun : Spec.reqUnimpl (byteAt p 10) = false := by rw [hcmd']; decide
+  have hd := Proc.dispatch_setEid_discovered c (byteAt p 10) (byteAt p 6) (fun i => byteAt p (11 + i)) buf
+    (by rw [hcmd']; rfl) hop (by omega)
+  refine ⟨_, _, Proc.process_of_dispatch c p buf ha hun _ _ _ hd, ?_⟩
+  exact Proc.sub_respPkt c.address (byteAt p 6) 0x01#8 [0x02#8, 0x00#8, c.respEid, 0x00#8] (buf.drop 16)
 
 /-- Get Endpoint ID reports the response half's EID -/
 theorem reported (c : Ctx) (p buf : Bytes) (hb : 64 ≤ buf.length)
     (ha : Spec.isAcceptedRequest p = true) (hcmd : Spec.cmdOf p = 0x02#8) :
     ∃ d buf', process c p buf = (c, .ok (d, some 16), buf') ∧
       Spec.sub buf' 9 15 = [0x00#8, 0x02#8, 0x00#8, c.respEid, 0x00#8, 0x00#8] := by
-  sorry
+  have hcmd' : byteAt p 10 = 0x02#8 := hcmd
+  have hun : Spec.reqUnimpl (byteAt p 10) = false := by rw [hcmd']; decide
+  have hd := Proc.dispatch_getEid_ok c (byteAt p 10) (byteAt p 6) (fun i => byteAt p (11 + i)) buf
+    (by rw [hcmd']; rfl) (by omega)
+  refine ⟨_, _, Proc.process_of_dispatch c p buf ha hun _ _ _ hd, ?_⟩
+  exact Proc.sub_respPkt c.address (byteAt p 6) 0x02#8 [0x00#8, c.respEid, 0x00#8, 0x00#8] (buf.drop 16)
 
 end C13
 end Mctp
